@@ -1,5 +1,6 @@
 SPECIFICATION Spec
 CONSTANTS
+  AsWritten = FALSE
   MaxCells = 3
   MaxTimeCells = 2
   Emit = TRUE
